@@ -37,9 +37,10 @@ const PAYLOADS: [&str; 28] = [
     "\u{1}MK\u{8}\u{ffff}",
     "MK\u{b}\u{c}\u{fffe}",
 ];
-const CHANNELS: [&str; 11] = [
+const CHANNELS: [&str; 13] = [
     "plain", "quoted", "tag", "legend-name", "legend-decl", "tag-after-identifier", "legend-name-after-identifier",
     "plain-after-non-ascii", "quoted-after-non-ascii", "legend-decl-repeated-class", "legend-decl-third-entry",
+    "quoted-backslash-before-markup", "quoted-between-escaped-quotes",
 ];
 const CONTEXTS: [&str; 4] = ["alone", "in-box", "touching-line", "two-rows"];
 
@@ -55,6 +56,9 @@ fn build(channel: usize, context: usize, payload: &str) -> String {
         // multi-byte characters in the same text run before the payload (2-, 3- and 4-byte encodings)
         7 => format!("Диаграмма потоков данных 一二三 𝔘𝔫𝔦 é {}", payload),
         8 => format!("\"Диаграмма 一二三 𝔘 é {}\"", payload),
+        // the quoted-string escape character in front of every markup character, and escaped quotes around the payload
+        11 => format!("\"{}\"", payload.replace('<', "\\<").replace('&', "\\&").replace('>', "\\>").replace('\'', "\\'")),
+        12 => format!("\"\\\"{}\\\"\"", payload),
         9 => return format!("{}# Legend:\nzz = {{fill:red}}\nzz = {{{}}}\n", ctx_diagram(context), payload),
         10 => return format!("{}# Legend:\nza = {{fill:red}}\nzb = {{x:1}}\nzz = {{{}}}\nzc = {{y:2}}\n", ctx_diagram(context), payload),
         _ => return format!("{}# Legend:\nzz = {{{}}}\n", ctx_diagram(context), payload),
